@@ -81,8 +81,9 @@ class Replayer:
 
 
 REPLAY_TEMPLATE = '''#!/usr/bin/env python
+# interpreter: {py}
 """Stand-alone replay of a counterexample for property {pid}.
-Run with the repository's interpreter:  {py} {path}
+Run with:  {py} {path}      (or: python3 /verif/tools/replay.py {path})
 Exit status 1 = the violation reproduces on the package under {repo}; 0 = it does not.
 {what}
 """
@@ -92,12 +93,13 @@ sys.path.insert(0, {repo!r})
 '''
 
 
-def write_replay(pid, what, body):
+def write_replay(pid, what, body, interpreter=None):
     os.makedirs(REPLAY_DIR, exist_ok=True)
     digest = hashlib.sha1((what + body).encode()).hexdigest()[:12]
     path = os.path.join(REPLAY_DIR, f"{pid}-{digest}.py")
+    what = what.replace('"' * 3, "'" * 3)
     with open(path, "w") as f:
-        f.write(REPLAY_TEMPLATE.format(pid=pid, py=VENV_PY, path=path, repo=REPO, what=what, body=body))
+        f.write(REPLAY_TEMPLATE.format(pid=pid, py=interpreter or VENV_PY, path=path, repo=REPO, what=what, body=body))
     return path
 
 
